@@ -10,7 +10,7 @@ decided by the dependency-set rules that were there before (R08.1/R08.4/R08.5/R1
   iou_rule          calculate_metric_object = I / (A_l + A_r - I), I the one intersection value, A_k the area of box k
   extent_rule       BoundingBox::intersection = (min(right edges) - max(left edges)) * (min(bottoms) - max(tops))
 """
-from lib import ExprBuilder, result_assignments, expand_calls
+from lib import E, ExprBuilder, result_assignments, expand_calls
 import poly
 from poly import RF, Poly, const, atom, fn_atom, sqrt_of, try_rf, substitute
 
@@ -33,6 +33,59 @@ def _two_box_atom(pl):
 
 def _angle_atom():
     return RF(Poly.atom(('fn', 'unwrap_or', ('angle', const(0).key()))))
+
+
+def _copy(e, args):
+    return E(e.kind, name=e.name, args=args, root=e.root, fields=e.fields, const=e.const, site=e.site, extra=e.extra, proj=e.proj)
+
+
+def _mentions_angle(e):
+    return any(x.kind == 'place' and 'angle' in x.fields for x in e.walk())
+
+
+def resolve_angle_phis(b, e, errs):
+    """`match b.angle { Some(a) => f(a), None => k }` shows in the vertex formula as phi(f(angle.Some.0) | k): it is the
+    formula f(angle.unwrap_or(0)) when the constant alternative is taken ONLY for a box without an angle and k = f(0)
+    (cos -> 1, sin -> 0, the angle itself -> 0). A constant taken on a path where the box HAS an angle (|angle| < eps,
+    a 'nearly axis-aligned' fast path) is reported through errs: the polygon is then not the rectangle rotated by the
+    box angle."""
+    from lib import path_conditions
+    if not isinstance(e, E):
+        return e
+    if e.kind == 'phi' and len(e.args) == 2:
+        withs = [a for a in e.args if _mentions_angle(a)]
+        consts = [a for a in e.args if not _mentions_angle(a)]
+        if len(withs) == 1 and len(consts) == 1:
+            k = consts[0]
+            kk = k.strip() if hasattr(k, 'strip') else k
+            conds = path_conditions(b, k.site[0]) if k.site else []
+            none_only = any(c.kind == 'discr' and c.variants == {'None'} and c.expr is not None and _mentions_angle(c.expr)
+                            for c in conds)
+            w = withs[0]
+
+            def repl(x):
+                if x.kind == 'place' and 'angle' in x.fields:
+                    i = x.fields.index('angle')
+                    base = E('place', root=x.root, fields=x.fields[:i + 1])
+                    return E('call', name='core::option::Option::unwrap_or', args=[base, E('const', const={'v': '0.0', 'ty': 'f32', 'f': 0.0})])
+                return _copy(x, [repl(a) if isinstance(a, E) else a for a in x.args])
+            if kk.kind == 'const':
+                ws = w.strip()
+                leaf = ws.name.rsplit('::', 1)[-1] if ws.kind == 'call' else None
+                want = 1.0 if leaf == 'cos' else 0.0 if (leaf == 'sin' or ws.kind == 'place') else None
+                try:
+                    kv = float(kk.const.get('v'))
+                except (TypeError, ValueError):
+                    kv = None
+                if want is None or kv is None:
+                    return e
+                if kv != want:
+                    errs.append((k.site, 'a box without an angle takes %r where %r at angle 0 is %s' % (kk, w, want)))
+                elif not none_only:
+                    errs.append((k.site, 'the constant %r replaces %r on a path where the box has an angle (the only '
+                                 'condition under which the angle may be ignored is `angle is None`)' % (kk, w)))
+                return resolve_angle_phis(b, repl(w), errs)
+    return _copy(e, [resolve_angle_phis(b, a, errs) if isinstance(a, E) else a for a in e.args])
 
 
 def _polygon_bodies(ctx, R):
@@ -108,7 +161,9 @@ def polygon_rule(ctx, R):
             continue
         for (bb, si, ln), es in lists:
             got, err = [], None
+            perrs = []
             for e in es:
+                e = resolve_angle_phis(b, e, perrs)
                 m = dict(zip(e.extra['fields'], e.args)) if e.extra and e.extra.get('fields') else None
                 if not m or 'x' not in m or 'y' not in m:
                     err = 'Coord literal without x / y'
@@ -126,6 +181,9 @@ def polygon_rule(ctx, R):
                 got = got[:4]
             ctx.read(b)
             n += 1
+            if perrs:
+                ctx.fail(R, b, 'polygon:angle-ignored-only-when-absent', 'vertex formula: ' + perrs[0][1], ln)
+                continue
             if len(got) != 4:
                 ctx.fail(R, b, 'polygon:four-corners', 'the polygon of a box is built from %d vertices (expected the 4 '
                          'corners of the rectangle)' % len(got), ln)
@@ -366,4 +424,47 @@ def signed_remainder_rule(ctx, R, bodies):
                       '`%r` is matched against %s with a wildcard arm for the remaining residue, but the remainder of a '
                       'negative dividend is negative in Rust: negative values take the wildcard arm meant for residue %s'
                       % (e, vals, sorted(set(range(mod)) - set(vals))), t.get('ln', ''))
+    return n
+
+
+def stored_unchanged_rule(ctx, R):
+    """the constructors of the rotated box store what the caller passed: `new` / `new_with_confidence` keep every
+    parameter in its field, `rotate` / `rotate_mut` keep the given angle (through `Some`). Arithmetic on the way (a
+    reduction modulo a turn in f32, a clamp, a default) makes the stored rectangle a different one from the rectangle the
+    caller described: the f32 reduction of a many-turn angle moves the tips of a long box by a visible amount."""
+    import wiring
+    from mir import fields_of, proj_key
+    n = 0
+    for path in ('utils::bbox::Universal2DBox::new', 'utils::bbox::Universal2DBox::new_with_confidence'):
+        if ctx.F.get(path):
+            n += wiring.identity_ctor(ctx, R, path)
+    for path in ('utils::bbox::Universal2DBox::rotate', 'utils::bbox::Universal2DBox::rotate_mut'):
+        for b in ctx.F.get(path) or []:
+            if b.kind == 'Closure':
+                continue
+            pn = {v: k for k, v in wiring.param_names(b).items()}
+            if 'angle' not in pn:
+                continue
+            root = ('param', pn['angle'])
+            eb = ExprBuilder(b)
+            vals = []
+            r = eb.place(0, ())
+            for x in r.walk():
+                if x.kind == 'agg' and x.extra and x.extra.get('fields') and 'angle' in x.extra['fields'] and \
+                        x.name.endswith('Universal2DBox'):
+                    vals.append((x.args[x.extra['fields'].index('angle')], None))
+            for i in sorted(b.live_blocks()):
+                for si, st in enumerate(b.blocks[i]['st']):
+                    if st['k'] == 'assign' and st['lhs']['p'] and fields_of(tuple(proj_key(q) for q in st['lhs']['p']))[-1:] == ('angle',):
+                        vals.append((eb._rvalue(st['rv'], (), 0, (i, si)), st.get('ln')))
+            if not vals:
+                ctx.note(R, '%s does not store an angle as a struct field: not evaluated' % path)
+                continue
+            ctx.read(b)
+            for x, ln in vals:
+                n += 1
+                ok = wiring._is_identity(x, root)
+                ctx.check(ok, R, b, 'angle-stored-unchanged', repr(x)[:80],
+                          '%s stores %r as the angle: not the angle the caller passed (a reduced / clamped angle is a '
+                          'different rectangle)' % (path.rsplit('::', 2)[-2] + '::' + path.rsplit('::', 1)[-1], x), ln)
     return n
